@@ -263,7 +263,12 @@ func runCase(c Case) *ev.Failure {
 				d.tag = append([]byte{}, m.AVP[0].Data.Serialize()...)
 			}
 		}
+		// replies are built both ways an application does: Answer(rc), and Answer(0) followed by
+		// AVPs of its own (e.g. an Experimental-Result instead of a Result-Code)
 		a := m.Answer(diam.Success)
+		if m.Header.EndToEndID&1 == 1 {
+			a = m.Answer(0)
+		}
 		short := d.tag
 		if len(short) > tagPrefix {
 			short = short[:tagPrefix]
